@@ -11,7 +11,7 @@ var (
 	LightVerify           func(trustedHeader, trustedVals, untrustedHeader, untrustedVals interface{}, trustingPeriod int64, now interface{}, maxClockDrift int64, trustLevel interface{}) error
 	ValidatorSetFromProto func(vp interface{}) (handled bool, err error)
 	SignedHeaderFromProto func(shp interface{}) (handled bool, err error)
-	ValidatorSetHash      func(vals interface{}) []byte
+	ValidatorSetHash      func(tag int64) []byte
 	// go-ethereum
 	TrieVerifyProof func(root [32]byte, key []byte, proofDb interface{}) (value []byte, err error, handled bool)
 	Ecrecover       func(hash, sig []byte) ([]byte, error)
